@@ -176,6 +176,10 @@ def build_run(rng, d, force=None):
         if noappend and rng.random() < 0.7:
             items += rng.sample(["PRED", "RES", "WRES", "DV"], rng.randint(1, 4))
         rng.shuffle(items)
+        if not noappend and rng.random() < 0.3:
+            # DV listed explicitly although it is appended as well: NONMEM keeps the listed column in its place and writes
+            # DV a second time in the appended group
+            items.insert(rng.randint(0, len(items)), "DV")
         header_mode = rng.choice(["ONEHEADER", "ONEHEADER", "", "NOTITLE"])
         if force.get("noheader") and t == 0:
             header_mode = "NOHEADER"
@@ -436,6 +440,9 @@ def check_table_level(c, d, run):
             c.violate(None, f"NONMEMTableFile({tb['file']}) raised {type(e).__name__}: {e}")
             continue
         c.hit("table_file_values")
+        if len(set(tb["columns"])) != len(tb["columns"]):
+            c.hit("not_judged:table-file-with-a-column-listed-twice")  # judged at results level (by position)
+            continue
         nseg = -(-len(tb["rows"]) // 900) if hm == "" else 1  # title repeated every 900 records: one table per segment
         if len(t) != nseg:
             c.violate(None, f"$TABLE file {tb['file']}: {len(t)} tables parsed, {nseg} written ({len(tb['rows'])} records)")
